@@ -280,6 +280,8 @@ def hint_trees(rng, quick, full=False):
         combos = must + rest[:3 if quick else 20]
     out = [[(o, 2, 3), (None, n, 3, hnt)] for o, hnt, n in combos]
     out.append([(None, 2, 3, "processes"), (None, 2, 3, "processes"), (None, 2, 2, "processes")])
+    out.append([(None, 2, 3), (None, 2, 2), (None, 3, 2, "sharedmem")])        # require='sharedmem' below two parallel levels
+    out.append([("threading", 2, 3), ("threading", 2, 2), (None, 3, 2, "threads")])
     out.append([(None, 2, 3, "threads")])
     out.append([(None, 2, 3, "sharedmem"), ("loky", 2, 2)])
     return out
@@ -436,8 +438,8 @@ def judge_tree(levels, run, model_chain, model_procs):
             if "kind" not in c or "." not in c["path"]:
                 continue
             dl = lvl(levels[c["path"].count(".")])
-            if dl[0] is not None or dl[3] not in (None, "processes"):
-                continue
+            if dl[0] is not None:
+                continue      # (any hint: below a worker the context backend is thread-based / sequential and has shared memory)
             anc = [c["path"].rsplit(".", k)[0] for k in range(1, c["path"].count(".") + 1)]
             n_par = sum(1 for a in anc if a in par)
             if n_par == 1 and c["kind"] not in ("ThreadingBackend", "SequentialBackend"):
@@ -610,7 +612,10 @@ def run(ctx):
             (gen_c17.generate_active_backend, "T_active_backend", "_get_active_backend"),
             # Props/C15.vo is built on Proofs/Config.vo (the regenerated _get_active_backend), which also needs these two
             (gen_c17.generate, "T_config_param", "_get_config_param"),
-            (gen_c17.generate_mp_context, "T_mp_context", "Parallel.__init__ mp context / abort_everything")]
+            (gen_c17.generate_mp_context, "T_mp_context", "Parallel.__init__ mp context / abort_everything"),
+            (gen_c17.generate_backend_attrs, "T_backend_attrs", "class attributes of the backend classes"),
+            (gen_c17.generate_pool_settings, "T_pool_settings", "_get_temp_dir / backend kwargs merge"),
+            (gen_c15.generate_call, "T_call", "Parallel.__call__ sequential shortcut")]
     rejected = set()
     for gen, fname, label in gens:
         try:
@@ -777,6 +782,30 @@ Definition showc (r : result Z) (pool : Z) : list Z :=
         if parse(v) != iv:
             disagreements.append({"function": "get_nested_backend/configure", "case": c, "impl": r, "model": v})
 
+    # ---- a user-defined backend that resolves to one worker: the tasks run in the calling thread (never through submit)
+    cus = [{"mode": "custom1", "via": via, "workers": w, "n_jobs": n} for via in ("instance", "name", "config")
+           for w in (1, 2) for n in (1, 3)]
+    res_cus = run_impl_cases(cus, nproc=3)
+    ctx.coq_build(["Gen/T_call.vo"])
+    have_call = "T_call" not in rejected and os.path.exists(os.path.join(common.COQ, "Gen", "T_call.vo"))
+    cvals = ctx.coq_eval_lines("From Coq Require Import ZArith List Bool.\nRequire Import JV.Base.PyPrelude%s.\nImport ListNotations. Open Scope Z_scope."
+                               % (" JV.Gen.T_call" if have_call else ""), "",
+                               ["[if %s then 1 else 0]" % (("call_runs_inline %d" % c["workers"]) if have_call else ("%d =? 1" % c["workers"]))
+                                for c in cus], name="c15_call")
+    n_model += len(cvals)
+    for c, r, v in zip(cus, res_cus, cvals):
+        if "ok" not in r:
+            problems.append(("user-defined backend (%s): %s" % (c["via"], r), c, r))
+            continue
+        inline = all(x == 1 for x in r["ok"]) and r["submitted"] == 0
+        if c["workers"] == 1 and not inline:
+            problems.append(("a user-defined backend (%s) whose configure() returns 1: the tasks did not run in the calling thread "
+                             "(in-caller %s, submit() called %d times)" % (c["via"], r["ok"], r["submitted"]), c, r))
+        if c["workers"] == 2 and inline:
+            problems.append(("a user-defined backend (%s) with 2 workers ran everything in the calling thread" % c["via"], c, r))
+        if parse(v) != [1 if inline else 0]:
+            disagreements.append({"function": "call_runs_inline", "case": c, "impl": r, "model": v})
+
     # ---- real nested runs
     trees = gen_trees(ctx.rng, quick)
     reuse = gen_reuse(ctx.rng, quick, real_cpus)
@@ -924,7 +953,7 @@ Definition showc (r : result Z) (pool : Z) : list Z :=
         ctx.note("translator tie lost, hand-model tie intact")
 
     ctx.finish({
-        "evaluations": len(eff) + len(api) + len(cpu) + len(nst) + len(cnf) + nest_stats["calls"] + reuse_stats["calls"],
+        "evaluations": len(eff) + len(api) + len(cpu) + len(nst) + len(cnf) + len(cus) + nest_stats["calls"] + reuse_stats["calls"],
         "distinct_nontrivial": len(nontrivial),
         "rule": "effective_n_jobs of the 4 backend classes for cpu_count in %s, every n in [-2*cpus, 2*cpus], plus all combinations "
                 "of daemon/_CURRENT_DEPTH/non-main thread/nesting level/mp-disabled on a value grid; joblib.effective_n_jobs under "
